@@ -462,7 +462,7 @@ func (ev *evaluator) apply(name string, args []V) (V, *Fault) {
 			ks[i] = k
 		}
 		if ff != nil {
-			return nil, ff
+			return nil, merge(ff, partialKeyFault(name, ks))
 		}
 		keys, f := orderKeys(name, ks)
 		if f != nil {
@@ -631,7 +631,7 @@ func (ev *evaluator) apply(name string, args []V) (V, *Fault) {
 			ks[i] = k
 		}
 		if ff != nil {
-			return nil, ff
+			return nil, merge(ff, partialKeyFault(name, ks))
 		}
 		keys, f := orderKeys(name, ks)
 		if f != nil {
@@ -1031,4 +1031,26 @@ func (ev *evaluator) applySafe(name string, args []V) (v V, f *Fault) {
 		}
 	}()
 	return ev.apply(name, args)
+}
+
+// partialKeyFault: when some key expressions fault, the keys that did evaluate
+// may still be of a wrong type, and that type fault may be reported instead.
+func partialKeyFault(fn string, ks []V) *Fault {
+	var ok []V
+	for _, k := range ks {
+		if k != nil {
+			ok = append(ok, k)
+		}
+	}
+	for _, k := range ks {
+		if k == nil {
+			// a null key (or a faulted one, also nil here) would be a type fault too
+			return fault(CatType, "%s: null key next to a faulting key expression", fn)
+		}
+	}
+	_, f := orderKeys(fn, ok)
+	if f != nil && f.Cats&CatUnspec != 0 {
+		return nil
+	}
+	return f
 }
